@@ -99,6 +99,16 @@ fn main() {
     match dec(&payload(18, vec![8, 0, 0, 0, 1, 0, 1, b'k', 5, 0, 0, 9])) {
         Ok(m) => if m != (RtmpMessage::Amf0Data { values: vec![Amf0Value::Object(np.clone())] }) { fail(format!("to_rtmp_message(type 18, ECMA array {{k: null}}) gave {:?}", m)) },
         Err(e) => fail(format!("to_rtmp_message(type 18, ECMA array {{k: null}}) failed: {}", e)) }
+    // non-ASCII text: the u16 prefix is the length in BYTES of the UTF-8 encoding (AMF0 1.3.1), for values and for property names
+    {
+        let sv = "é€✓"; let pn = "ключ";
+        let mut o = std::collections::HashMap::new(); o.insert(pn.to_string(), Amf0Value::Utf8String(sv.to_string()));
+        let mut b = vec![2u8, 0, sv.len() as u8]; b.extend_from_slice(sv.as_bytes());
+        b.extend_from_slice(&[3, 0, pn.len() as u8]); b.extend_from_slice(pn.as_bytes()); b.extend_from_slice(&[2, 0, sv.len() as u8]); b.extend_from_slice(sv.as_bytes()); b.extend_from_slice(&[0, 0, 9]);
+        expect_layout(RtmpMessage::Amf0Data { values: vec![Amf0Value::Utf8String(sv.to_string()), Amf0Value::Object(o.clone())] }, 18, b.clone());
+        let mut c = vec![2u8, 0, sv.len() as u8]; c.extend_from_slice(sv.as_bytes()); c.push(0); c.extend_from_slice(&7.0f64.to_be_bytes()); c.extend_from_slice(&b[3 + sv.len()..]);
+        expect_layout(RtmpMessage::Amf0Command { command_name: sv.to_string(), transaction_id: 7.0, command_object: Amf0Value::Object(o), additional_arguments: vec![] }, 20, c);
+    }
     // termination on lying counts: a strict array announcing 2^32-1 elements with none present must return promptly (Ok or Err)
     {
         let (tx, rx) = std::sync::mpsc::channel();
